@@ -65,7 +65,7 @@ def hertz_three_sided_pyramid(delta, E, alpha, nu, contact_point=0,
     aa = 0.8887*np.tan(alpha*pi/180) * E/(1-nu**2)
     root = contact_point-delta
     pos = root > 0
-    bb = np.zeros_like(delta)
+    bb = np.zeros_like(delta, dtype=float)
     bb[pos] = (root[pos])**(2)
     return aa*bb + baseline
 
